@@ -528,3 +528,133 @@ Proof.
     rewrite (dc_pep_decoy_flags cls rv p q Hp Hpq), (IH Hps). reflexivity. }
   unfold dc_sites. rewrite Hlen, (dc_match_ends_flags cls t (concat qs) 0 Hflags). reflexivity.
 Qed.
+
+(* ====================================================================== *)
+(* make_decoys end to end *)
+(* ====================================================================== *)
+(* the regex oracle's contract for explicitly given sites; nothing to assume for a residue class *)
+Definition dc_given_ok (enz : dc_enzyme) (targets : list (str * str)) : Prop :=
+  match enz with
+  | DcClass _ => True
+  | DcGiven l => Forall2 (fun ss e => dc_sites_ok ss (snd e)) l targets
+  end.
+
+Lemma dc_zip_sites_spec : forall targets l prots,
+  dc_zip_sites targets l = Ok prots ->
+  map fst prots = targets /\ map snd prots = l.
+Proof.
+  induction targets as [|[n s] targets IH]; intros [|ss l] prots H; cbn [dc_zip_sites] in H; try discriminate.
+  - inversion H. split; reflexivity.
+  - destruct (dc_zip_sites targets l) as [u|e] eqn:E; cbn [bind] in H; [|discriminate].
+    inversion H; subst. destruct (IH l u E) as [H1 H2]. cbn [map fst snd]. rewrite H1, H2. split; reflexivity.
+Qed.
+
+Lemma dc_attach_spec enz targets prots :
+  dc_attach enz targets = Ok prots -> dc_given_ok enz targets ->
+  map fst prots = targets /\ Forall (fun pr => dc_sites_ok (snd pr) (snd (fst pr))) prots
+  /\ (forall cls, enz = DcClass cls -> prots = map (fun e => (e, dc_sites cls (snd e))) targets).
+Proof.
+  destruct enz as [cls|l]; cbn [dc_attach dc_given_ok]; intros H Hok.
+  - inversion H; subst. split; [|split].
+    + rewrite map_map. cbn [fst]. rewrite <- (map_id targets) at 2. apply map_ext. intros [n s]. reflexivity.
+    + rewrite Forall_forall. intros pr Hin. apply in_map_iff in Hin. destruct Hin as (e & <- & _).
+      cbn [fst snd]. apply dc_sites_sites_ok.
+    + intros cls' E. inversion E; subst. apply map_ext. intros [n s]. reflexivity.
+  - destruct (dc_zip_sites_spec _ _ _ H) as [H1 H2]. split; [exact H1|]. split; [|discriminate].
+    subst targets l. clear H. induction prots as [|[e ss] prots IH]; [constructor|].
+    cbn [map fst snd] in Hok. inversion Hok; subst. constructor; [assumption | apply IH; assumption].
+Qed.
+
+Lemma dc_attach_total_class cls targets :
+  dc_attach (DcClass cls) targets = Ok (map (fun e => (fst e, snd e, dc_sites cls (snd e))) targets).
+Proof. reflexivity. Qed.
+
+(* the entries make_decoys writes *)
+Theorem dc_entries_spec draw rv : dc_perm_contract draw ->
+  forall files prefix enz conc entries,
+  dc_entries draw files prefix enz rv conc = Ok entries ->
+  (forall targets, fa_parse_files files = Ok targets -> dc_given_ok enz targets) ->
+  exists targets prots decoys,
+    fa_parse_files files = Ok targets /\ dc_attach enz targets = Ok prots /\ map fst prots = targets /\
+    Forall (fun pr => dc_sites_ok (snd pr) (snd (fst pr))) prots /\
+    Forall2 (dc_decoy_of rv prefix) prots decoys /\
+    entries = (if conc then targets ++ decoys else decoys).
+Proof.
+  intros Hdraw files prefix enz conc entries H Hgiven. unfold dc_entries in H.
+  destruct (fa_parse_files files) as [targets|e] eqn:P; cbn [bind] in H; [|discriminate].
+  destruct (dc_attach enz targets) as [prots|e] eqn:A; cbn [bind] in H; [|discriminate].
+  destruct (dc_attach_spec _ _ _ A (Hgiven _ eq_refl)) as (Hfst & Hok & _).
+  destruct (dc_shuffle_proteins_spec draw Hdraw rv prefix prots Hok) as (decoys & Hrun & Hdec).
+  rewrite Hrun in H. cbn [bind] in H. inversion H; subst entries.
+  exists targets, prots, decoys. repeat split; assumption.
+Qed.
+
+(* once the input has been parsed, decoy generation cannot fail (residue-class enzyme) *)
+Theorem dc_entries_total draw rv : dc_perm_contract draw ->
+  forall files prefix cls conc targets, fa_parse_files files = Ok targets ->
+  exists entries, dc_entries draw files prefix (DcClass cls) rv conc = Ok entries.
+Proof.
+  intros Hdraw files prefix cls conc targets P. unfold dc_entries. rewrite P. cbn [bind].
+  rewrite dc_attach_total_class. cbn [bind].
+  destruct (dc_attach_spec (DcClass cls) targets _ (dc_attach_total_class cls targets) I) as (_ & Hok & _).
+  destruct (dc_shuffle_proteins_spec draw Hdraw rv prefix _ Hok) as (decoys & Hrun & _).
+  rewrite Hrun. cbn [bind]. eexists. reflexivity.
+Qed.
+
+(* ---------- well-formedness of what is written ---------- *)
+Lemma fa_parse_all_spec : forall recs es, fa_parse_all recs = Ok es ->
+  length es = length recs /\ Forall (fun e => fa_name_ok (fst e) /\ fa_nolb (snd e)) es.
+Proof.
+  induction recs as [|r recs IH]; intros es H; cbn [fa_parse_all] in H.
+  - inversion H. split; [reflexivity|constructor].
+  - destruct (fa_parse_protein r) as [[n s]|e] eqn:P; cbn [bind] in H; [|discriminate].
+    destruct (fa_parse_all recs) as [es'|e] eqn:A; cbn [bind] in H; [|discriminate].
+    inversion H; subst. destruct (IH es' eq_refl) as [Hl HF]. split; [cbn; rewrite Hl; reflexivity|].
+    constructor; [|exact HF]. cbn [fst snd]. apply (fa_parse_protein_name_ok r n s P).
+Qed.
+
+Lemma fa_parse_files_spec files targets : fa_parse_files files = Ok targets ->
+  targets <> [] /\ Forall (fun e => fa_name_ok (fst e)) targets.
+Proof.
+  unfold fa_parse_files, fa_records, fa_split_recs. intros H.
+  destruct (fa_parse_all_spec _ _ H) as [Hl HF]. split.
+  - intros ->. cbn in Hl. symmetry in Hl. apply length_zero_iff_nil in Hl.
+    exact (fa_split_aux_nonempty _ _ Hl).
+  - eapply Forall_impl; [|exact HF]. intros e [He _]. exact He.
+Qed.
+
+Lemma fa_name_ok_app a b : fa_name_ok a -> fa_name_ok b -> fa_name_ok (a ++ b).
+Proof. intros Ha Hb. apply Forall_app. split; assumption. Qed.
+
+(* re-reading the file written by make_decoys yields exactly the entries that were written *)
+Theorem dc_make_decoys_roundtrip draw wrapf rv : dc_perm_contract draw -> fa_wrap_contract wrapf ->
+  forall files prefix enz conc text,
+  dc_make_decoys draw wrapf files prefix enz rv conc = Ok text ->
+  (forall targets, fa_parse_files files = Ok targets ->
+     dc_given_ok enz targets /\ Forall (fun e => fa_seq_ok (snd e)) targets) ->
+  fa_name_ok prefix ->
+  fa_parse_files [text] = dc_entries draw files prefix enz rv conc.
+Proof.
+  intros Hdraw Hwrap files prefix enz conc text H Hin Hprefix. unfold dc_make_decoys in H.
+  destruct (dc_entries draw files prefix enz rv conc) as [entries|e] eqn:E; cbn [bind] in H; [|discriminate].
+  inversion H; subst text. clear H.
+  destruct (dc_entries_spec draw rv Hdraw files prefix enz conc entries E (fun t P => proj1 (Hin t P)))
+    as (targets & prots & decoys & P & A & Hfst & Hok & Hdec & ->).
+  destruct (Hin targets P) as [_ Hseq]. destruct (fa_parse_files_spec files targets P) as [Hne Hnames].
+  assert (Ht : Forall fa_entry_ok targets).
+  { rewrite Forall_forall in *. intros e He. split; [apply Hnames | apply Hseq]; exact He. }
+  assert (Hd : Forall fa_entry_ok decoys).
+  { subst targets. clear P A Hne Hnames Hseq Hin E. induction Hdec as [|pr dc prots decoys [Hn Hs] Hdec IH]; [constructor|].
+    inversion Ht as [|? ? [Htn Hts] Ht']; subst. inversion Hok as [|? ? Hso Hok']; subst.
+    constructor; [|apply IH; assumption]. split.
+    - rewrite Hn. apply fa_name_ok_app; assumption.
+    - pose proof (dc_struct_perm _ _ _ _ Hso Hs) as HP. unfold fa_seq_ok in *. rewrite Forall_forall in *.
+      intros c Hc. apply Hts. apply (Permutation_in _ HP). exact Hc. }
+  assert (Hdne : decoys <> []).
+  { intros ->. inversion Hdec; subst. cbn in Hne. congruence. }
+  destruct conc.
+  - apply (fa_roundtrip wrapf Hwrap).
+    + intros Happ. apply app_eq_nil in Happ. destruct Happ as [Happ _]. exact (Hne Happ).
+    + apply Forall_app. split; assumption.
+  - apply (fa_roundtrip wrapf Hwrap); assumption.
+Qed.
